@@ -6,6 +6,7 @@ package harness
 // uniqueness of the id helpers.
 
 import (
+	"math"
 	"fmt"
 	"regexp"
 	"runtime"
@@ -80,6 +81,8 @@ func (o slOp) String() string {
 
 var slKinds = []string{"push", "push", "unshift", "unshift", "pop", "shift", "get", "set", "slice", "filter", "splice", "splice", "splice", "remove", "removeAll", "range", "rangeSplice", "rangeSplice", "findIndex", "all", "clear", "allAndClear", "len", "replace", "doWrite", "doRead"}
 
+var extremeInts = []int{math.MaxInt, math.MaxInt - 1, math.MaxInt - 9, math.MinInt, math.MinInt + 1, 1 << 31, -(1 << 31), 1 << 32, 1 << 62}
+
 func genSlOps(rt *rapid.T, allowNeg, allowSpare bool, col *Collector) []slOp {
 	n := rapid.IntRange(1, 30).Draw(rt, "nops")
 	ops := make([]slOp, n)
@@ -89,6 +92,15 @@ func genSlOps(rt *rapid.T, allowNeg, allowSpare bool, col *Collector) []slOp {
 		o := slOp{Kind: rapid.SampledFrom(slKinds).Draw(rt, l+".kind")}
 		o.A = rapid.IntRange(-2, 9).Draw(rt, l+".a")
 		o.B = rapid.IntRange(-2, 9).Draw(rt, l+".b")
+		// indices and counts at the ends of the integer range ("delete up to the end" is usually written MaxInt)
+		switch rapid.IntRange(0, 11).Draw(rt, l+".extreme") {
+		case 0:
+			o.B = rapid.SampledFrom(extremeInts).Draw(rt, l+".xb")
+			col.Class("extreme-count-or-end")
+		case 1:
+			o.A = rapid.SampledFrom(extremeInts).Draw(rt, l+".xa")
+			col.Class("extreme-index")
+		}
 		switch o.Kind {
 		case "push", "unshift", "splice", "rangeSplice", "replace":
 			m := rapid.IntRange(0, 4).Draw(rt, l+".n")
